@@ -782,6 +782,61 @@ func elemsToElement(es []elem) []string {
 	return out
 }
 
+func sval(x string) val {
+	return val{kind: 's', s: x, gv: &gnmi.TypedValue{Value: &gnmi.TypedValue_StringVal{StringVal: x}}}
+}
+
+func pe(names ...string) []elem {
+	es := []elem{}
+	for _, n := range names {
+		es = append(es, elem{name: n})
+	}
+	return es
+}
+
+// directed returns fixed requests: each is valid except for the one thing its comment names
+func directed() []request {
+	async := []ext{{kind: 'S', decodes: true}}
+	ok := upd{gpath{target: "t1", elems: pe("sys", "name")}, sval("ok")}
+	nested := func(v string) request {
+		p := []elem{{name: "cont"}, {name: "outer", keys: [][2]string{{"id", "a"}}}, {name: "inner", keys: [][2]string{{"id", "b"}}}, {name: "id"}}
+		return request{updates: []upd{ok, {gpath{target: "t1", elems: p}, sval(v)}}, exts: async}
+	}
+	over := func(t string, prefixTarget bool) request {
+		r := request{updates: []upd{ok, {gpath{target: t, elems: pe("sys", "subx")}, sval("y")}},
+			exts: []ext{{kind: 'O', decodes: true, ov: [][3]string{{t, "devicesim", "1.0.0"}}}, {kind: 'S', decodes: true}}}
+		if prefixTarget {
+			r.prefix.target = t
+			r.updates[1].path.target = ""
+		}
+		return r
+	}
+	element := func(del bool) request {
+		r := request{prefix: gpath{target: "t2", element: []string{"ifs", "if[name=eth0]"}}, exts: async,
+			updates: []upd{{gpath{elems: pe("descr")}, sval("d")}, {gpath{element: []string{"mtu"}}, sval("m")}}}
+		if del {
+			r.deletes = []gpath{{elems: pe("units")}}
+		}
+		return r
+	}
+	return []request{
+		nested("b"),         // key leaf of the inner entry = its own key: accepted
+		nested("a"),         // = the same-named key of the enclosing entry: refused
+		nested("c"),         // neither: refused
+		over("ghost", false), // override entry for a target absent from the topology: refused
+		over("ghost", true),
+		over("t6", false), // ... for an entity without the Configurable aspect: refused
+		over("t5", false), // ... for a Configurable target whose own model is unknown: the override's plugin is used
+		element(false),    // prefix and a path in the gNMI 0.3 element form: land below the prefix
+		element(true),
+		{deletes: []gpath{{target: "t1", elems: pe("sys", "su")}}, updates: []upd{ok}, exts: async},                       // partial element name: refused
+		{deletes: []gpath{{target: "t1", elems: pe("sys", "sub")}}, updates: []upd{ok}, exts: async},                      // a real ancestor: accepted
+		{prefix: gpath{elems: pe("sys")}, deletes: []gpath{{target: "t1"}}, exts: async},                                  // delete of "<prefix>/": refused
+		{deletes: []gpath{{target: "t1"}}, exts: async},                                                                   // delete of "/": refused
+		{prefix: gpath{target: "t2"}, updates: []upd{ok, {gpath{target: "ghost", elems: pe("sys", "subx")}, sval("z")}}, exts: async}, // prefix target overrides both
+	}
+}
+
 func hasPrefixElems(es, pre []elem) bool {
 	if len(es) < len(pre) {
 		return false
@@ -1226,6 +1281,22 @@ func main() {
 			side.runCase(out, id, l, req)
 			if sideCount%100 == 0 {
 				side = newWorld(false, limits)
+			}
+		}
+	}
+	// directed requests first: the witnesses of past findings and of changes that once went unnoticed (fixed shapes,
+	// independent of the random streams)
+	for i, req := range directed() {
+		for _, l := range []int{0, 3} {
+			id := fmt.Sprintf("%d:d%d.%d", *seed, i, l)
+			if deletesValid(req) {
+				main.runCase(out, id, l, req)
+				if main.dirty {
+					main.e.StopControllers()
+					main = newWorld(true, limits)
+				}
+			} else {
+				side.runCase(out, id, l, req)
 			}
 		}
 	}
